@@ -192,6 +192,17 @@ carquet_status_t carquet_reader_row_group_matches(
         if ((size_t)stats.min_value_size < need || (size_t)stats.max_value_size < need) {
             return CARQUET_OK;
         }
+        /* A NaN probe is unordered with everything: `x != NaN` holds for every
+         * row and no other comparison can be decided from min/max. */
+        if (type == CARQUET_PHYSICAL_FLOAT) {
+            float fv;
+            memcpy(&fv, value, sizeof(fv));
+            if (fv != fv) return CARQUET_OK;
+        } else if (type == CARQUET_PHYSICAL_DOUBLE) {
+            double dv;
+            memcpy(&dv, value, sizeof(dv));
+            if (dv != dv) return CARQUET_OK;
+        }
         cmp_min = cmp_fn(value, stats.min_value);
         cmp_max = cmp_fn(value, stats.max_value);
     } else {
